@@ -22,6 +22,7 @@ RULE_MODULES = [
     'rules_flows',
     'rules_printers',
     'rules_rewrite',
+    'rules_constants',
     'rules_types',
     'rules_simplify',
 ]
